@@ -103,6 +103,9 @@ func (x *Ex) genFuncsMore(body *LeanFile) {
 	x.bodyStmts(body, "internal/domutil", "", "GetOutputNodes", "getOutputNodesBody", "C04", "C05")
 	x.bodyStmts(body, "internal/domutil", "", "MakeAllLinksAbsolute", "makeAllLinksAbsoluteBody", "C06")
 	x.bodyStmts(body, "internal/webdoc", "WebDocumentBuilder", "flushBlock", "flushBlockBody", "C06")
+	// the scanning half of FindOutlink is what hook VerifNumberGroups repeats
+	x.bodyStmts(body, "internal/pagination", "PageNumberFinder", "FindOutlink", "numberFindOutlinkBody", "C16", "C17")
+	x.bodyStmts(body, "internal/pagination", "PrevNextFinder", "FindPagination", "prevNextFindPaginationBody", "C16", "C17")
 }
 
 func (x *Ex) genInventory() string {
